@@ -44,6 +44,7 @@ type VirtualMachine struct {
 	globals      map[string]object.Object
 	loadedCode   map[*compiler.Code]*code
 	running      bool
+	runDone      chan struct{}
 	concAllowed  bool
 	runMutex     sync.Mutex
 	cloneMutex   sync.Mutex
@@ -126,12 +127,26 @@ func (vm *VirtualMachine) start(ctx context.Context) error {
 	}
 	vm.running = true
 	vm.startCount++
-	// Halt execution when the context is cancelled
-	vm.halt = 0
+	// Halt execution when the context is cancelled. The watcher only lives as
+	// long as this run: it exits when stop() closes runDone, and it only sets
+	// the halt flag if this run is still the one in progress. Otherwise the
+	// cancellation of a context that belonged to an earlier, finished run
+	// would halt a later run on the same VM.
+	atomic.StoreInt32(&vm.halt, 0)
 	if doneChan := ctx.Done(); doneChan != nil {
+		runID := vm.startCount
+		runDone := make(chan struct{})
+		vm.runDone = runDone
 		go func() {
-			<-doneChan
-			atomic.StoreInt32(&vm.halt, 1)
+			select {
+			case <-doneChan:
+				vm.runMutex.Lock()
+				if vm.running && vm.startCount == runID {
+					atomic.StoreInt32(&vm.halt, 1)
+				}
+				vm.runMutex.Unlock()
+			case <-runDone:
+			}
 		}()
 	}
 	return nil
@@ -141,6 +156,10 @@ func (vm *VirtualMachine) stop() {
 	vm.runMutex.Lock()
 	defer vm.runMutex.Unlock()
 	vm.running = false
+	if vm.runDone != nil {
+		close(vm.runDone)
+		vm.runDone = nil
+	}
 }
 
 func (vm *VirtualMachine) Run(ctx context.Context) (err error) {
